@@ -121,6 +121,7 @@ type Result struct {
 	LastSeed     uint64            `json:"last_run_seed"`
 	Replay       *ReplayResult     `json:"replay,omitempty"`
 	Budgeted     bool              `json:"stopped_by_budget"`
+	MoreSigs     []string          `json:"further_violation_sigs"`
 	Sequences    int               `json:"sequences"`
 	RefStops     int               `json:"reference_stop_points"`
 	ChildRuns    int64             `json:"child_processes"`
@@ -1497,7 +1498,7 @@ func (w *worker) runCase(si *seqInfo, id caseID) *caseOut {
 			return co
 		}
 		i := sp.Store
-		op := si.ops[i]
+		op := strings.Split(si.ops[i], "/")[0] // signatures name the setter, not the size of its argument
 		end := o.report[2+2*i]
 		memBefore := o.report[0].Mem
 		if i > 0 {
@@ -1512,7 +1513,7 @@ func (w *worker) runCase(si *seqInfo, id caseID) *caseOut {
 			tr("store %d %-20s returned %s; memory sha256=%s gen=%d decoys=%d; file %s", j, e.Op, res, short(e.Mem), e.Gen, e.Decoys, o.snaps[j].desc())
 		}
 		if end.Failed {
-			co.probes = append(co.probes, "store_failed_"+strings.Split(op, "/")[0])
+			co.probes = append(co.probes, "store_failed_"+op)
 		}
 		snapI := o.snaps[i]
 		wh := which(&snapI, i)
@@ -1558,7 +1559,7 @@ func (w *worker) runCase(si *seqInfo, id caseID) *caseOut {
 		for j := i + 1; j < k && co.sig == ""; j++ {
 			e := o.report[2+2*j]
 			if e.Failed {
-				fail(fmt.Sprintf("C20/later-store-failed/%s", e.Op), "after %s during %s the later fault-free store %d (%s) failed: %s", o.injNote, stName, j, e.Op, w.normText(e.Err))
+				fail(fmt.Sprintf("C20/later-store-failed/%s", strings.Split(e.Op, "/")[0]), "after %s during %s the later fault-free store %d (%s) failed: %s", o.injNote, stName, j, e.Op, w.normText(e.Err))
 				break
 			}
 			sj := o.snaps[j]
@@ -1569,7 +1570,7 @@ func (w *worker) runCase(si *seqInfo, id caseID) *caseOut {
 				okFile = sj.ok && sj.hash() == e.Mem
 			}
 			if !okFile {
-				fail(fmt.Sprintf("C20/later-store-failed/%s/file-differs", e.Op), "after %s during %s the later fault-free store %d (%s) returned nil but the file (%s) is not the marshalling of the configuration in memory (sha256 %s)", o.injNote, stName, j, e.Op, sj.desc(), short(e.Mem))
+				fail(fmt.Sprintf("C20/later-store-failed/%s/file-differs", strings.Split(e.Op, "/")[0]), "after %s during %s the later fault-free store %d (%s) returned nil but the file (%s) is not the marshalling of the configuration in memory (sha256 %s)", o.injNote, stName, j, e.Op, sj.desc(), short(e.Mem))
 			}
 		}
 		if co.sig == "" && i < k-1 {
@@ -1941,7 +1942,7 @@ func realMain() int {
 	knownPath := flag.String("known", "", "known_findings.txt")
 	outPath := flag.String("out", "", "result JSON")
 	replay := flag.String("replay", "", "replay file")
-	nseq := flag.Int("seqs", 0, "number of seeded sequences (0: 1 quick, 400 thorough)")
+	nseq := flag.Int("seqs", 0, "number of seeded sequences (0: 1 quick, 4000 thorough; the budget usually ends the thorough tier earlier)")
 	flag.Parse()
 	if runtime.GOOS != "linux" || runtime.GOARCH != "amd64" {
 		fmt.Fprintln(os.Stderr, "ptracefi: linux/amd64 only")
@@ -1979,7 +1980,7 @@ func realMain() int {
 	t0 := time.Now()
 	var childRuns atomic.Int64
 	res := &Result{Prop: prop, Tier: *tier, BaseSeed: *seed, NShards: 1, Faults: map[string]int{}, Probes: map[string]int{}, Known: map[string]int{},
-		Violations: []ViolationReport{}, Samples: []Sample{}, Errors: []string{},
+		Violations: []ViolationReport{}, Samples: []Sample{}, Errors: []string{}, MoreSigs: []string{},
 		Real: []string{
 			"pkg/client/assets of the current tree (AssetsSetDir, SetClientConf, SetDecoys, SetPubkey, SetGeneration, SetPhantomSubnets, saveClientConf, readConfigs), unmodified, in a real process",
 			"the Go runtime and package os of the toolchain, the Linux kernel and the file system of the scratch directory",
@@ -2076,7 +2077,7 @@ func realMain() int {
 	if n == 0 {
 		n = 1
 		if *tier == "thorough" {
-			n = 400
+			n = 4000
 		}
 	}
 	batch := 2 * *workers
@@ -2092,6 +2093,12 @@ func realMain() int {
 		e.runBatch(seeds, false)
 	}
 	// minimise + confirm the first case of every new signature (in parallel, one worker each)
+	const maxReported = 8
+	if len(e.order) > maxReported {
+		// a broken store fails in many ways at once; minimise and report the first few signatures, list the others
+		res.MoreSigs = append(res.MoreSigs, e.order[maxReported:]...)
+		e.order = e.order[:maxReported]
+	}
 	reps := make([]ViolationReport, len(e.order))
 	p.each(len(e.order), func(w *worker, i int) {
 		sig := e.order[i]
